@@ -4,6 +4,7 @@ import (
 	"context"
 	"encoding/json"
 	"fmt"
+	"k8s.io/apimachinery/pkg/apis/meta/v1/unstructured"
 	"math/rand"
 	"package-operator.run/internal/verifharness/driver"
 	"reflect"
@@ -138,12 +139,28 @@ func (w *world) checkFreshRender(name string) {
 		// classification: the controller holds this very spec for deployed (status.unpackedHash equals the spec's hash), and an
 		// earlier Package pass changed the ObjectDeployment but failed before it could record the hash of the spec it had deployed
 		if pkg.Status.UnpackedHash == (&adapters.GenericPackage{Package: pkg}).GetSpecHash(nil) {
+			// the last pass that changed the ObjectDeployment failed after that write (nothing recorded), it had started from a
+			// status that already carried today's hash (recorded for an earlier deploy of the same spec), and no later pass
+			// touched the ObjectDeployment: the spec went A -> B (deployed, unrecorded) -> A
+			var last *simkube.Pass
 			for _, p := range w.e.W.Passes {
 				if p.Actor != driver.CtrlPackage || p.Key.Name != name {
 					continue
 				}
-				wrote, failed := false, false
 				for _, r := range p.Requests {
+					if r.GVK.Kind == "ObjectDeployment" && r.IsWrite() && r.Changed {
+						last = p
+					}
+				}
+			}
+			if last != nil {
+				wrote, failed, startedWithTodaysHash := false, false, false
+				for _, r := range last.Requests {
+					if r.GVK.Kind == "Package" && r.Verb == "get" && r.Err == nil && !wrote {
+						if h, _, _ := unstructured.NestedString(r.Post, "status", "unpackedHash"); h == pkg.Status.UnpackedHash {
+							startedWithTodaysHash = true
+						}
+					}
 					if r.GVK.Kind == "ObjectDeployment" && r.IsWrite() && r.Changed {
 						wrote = true
 					}
@@ -151,9 +168,8 @@ func (w *world) checkFreshRender(name string) {
 						failed = true
 					}
 				}
-				if wrote && failed {
+				if failed && startedWithTodaysHash {
 					sig += ":spec-returned-to-recorded-hash-after-unrecorded-deploy"
-					break
 				}
 			}
 		}
